@@ -17,6 +17,26 @@ CLAIMED = {
             "trusted: TLC, the TLA+ Reader (RFC 8259 transcription), python float() as read-back oracle for doubles; numbers in "
             "enumerated values are <= 9-digit integers",
             "DESIGN.md §4 C05"),
+    "C18": ("TLA+ specs Interner (pool/refcount protocol) and Gc (evaluate/drop/collect) model-checked by TLC; every "
+            "TLC-generated interner transition replayed on real IStr/IBytes with the pool_len hook; collector runs "
+            "trace-validated against Trace_Gc",
+            "TLC checks PoolExact, RefCounts, Canonical, Utf8Flag, ContentsStable on all operation sequences within the bounds "
+            "and every one of those transitions is replayed against the implementation comparing pool size, pooled contents, "
+            "live contents and pairwise equality after each step; tracked-object counts before/after each evaluation must be a "
+            "behaviour of Gc.tla",
+            "trusted: TLC, jrsonnet_gcmodule's count_thread_tracked, the cfg-guarded pool accessors; bounds: 4 contents, <=8 ops, <=4 live handles; "
+            "memory safety of the unsafe refcount code is not modelled",
+            "DESIGN.md §4 C18"),
+    "C03": ("TLA+ spec Lazy (memo-cell protocol with explicit evaluation stack) model-checked by TLC; every (dependency graph, "
+            "demand sequence) replayed on real thunks, object fields, array elements and locals; hook-event traces of real "
+            "evaluations validated against Trace_Lazy",
+            "TLC checks AtMostOnce, PendingIffRunning, QuiescentClean, StoredOutcome, OnlyNeeded, Stable over all graphs of <=3 cells "
+            "incl. cycles x all demand orders; each behaviour is replayed on four kinds of real memo cells comparing outcome and "
+            "bodies run per demand; memoisation events emitted by the evaluator hooks must form a behaviour of the protocol; "
+            "hand-written unneeded-position and shared-position programs bind the protocol to language constructs",
+            "trusted: TLC, the cfg-guarded event sink; the expectations of the unneeded/shared-position programs are hand-written; "
+            "order of evaluation is not compared",
+            "DESIGN.md §4 C03"),
 }
 
 NOT_YET = "specification module and binding not built yet in this round; see DESIGN.md §4 for the planned model"
